@@ -93,7 +93,7 @@ Example wide_extract_panics : bsr_extract (mkBsr (repeat 255 32) 0) 201 = Panic.
 Proof. vm_compute. reflexivity. Qed.
 Example wide_unpack_panics : unpack_type (TInteger 0 (2 ^ 200)) (mkBsr (repeat 255 32) 0) = Panic.
 Proof. vm_compute. reflexivity. Qed.
-Example wide_parse_panics : parse_streams wide_proto [mkBsr (repeat 255 32) 0] [[]] 1 = Panic.
+Example wide_parse_panics : parse_streams wide_proto [mkBsr (repeat 255 32) 0] [[]] = Panic.
 Proof. vm_compute. reflexivity. Qed.
 (** the bound is not tight at 64: widths up to 121 bits cannot panic, 129 always can *)
 Example wide_65_no_panic : unpack_type (TInteger 0 (2 ^ 64)) (mkBsr (repeat 255 32) 7) <> Panic.
